@@ -3,6 +3,7 @@
 package zzverif
 
 import (
+	"math"
 	"encoding/json"
 	"fmt"
 	"reflect"
@@ -579,6 +580,22 @@ func (sc cdrScenario) alphabet(raw json.RawMessage, depth int) (ops []Op) {
 			r := cont(vol+4, false)
 			r.Seq = next(1)
 			ops = append(ops, Op{K: "release", S: si, MUs: []MU{{RG: 1, Req: -1, Conts: []Cont{r}}}, Trig: []string{"FINAL"}, Seq: int32(depth)})
+			// containers of unusual shape (total volume absent or different from uplink + downlink, units only, empty,
+			// maximal), online and offline, in an update and in a release
+			for _, off := range []bool{false, true} {
+				var shapes []Cont
+				for _, c := range []Cont{{Vol: 0, Up: 700, Down: 300}, {Vol: 5}, {SSU: 9}, {}, {Vol: 50, Up: 60, Down: 70, SSU: 1}, {Vol: math.MaxInt32, Up: 1, Down: 1}} {
+					c.Seq, c.Offline = next(1), off
+					shapes = append(shapes, c)
+				}
+				ops = append(ops, Op{K: "update", S: si, MUs: []MU{{RG: 1, Req: 10, Conts: shapes}}, Seq: int32(depth)})
+				var shapes2 []Cont
+				for _, c := range shapes {
+					c.Seq = next(1)
+					shapes2 = append(shapes2, c)
+				}
+				ops = append(ops, Op{K: "release", S: si, MUs: []MU{{RG: 1, Req: -1, Conts: shapes2}}, Trig: []string{"FINAL"}, Seq: int32(depth)})
+			}
 		}
 		for _, n := range sc.bulks {
 			c1 := cont(vol, true)
